@@ -187,6 +187,10 @@ class C18(spec.Spec):
                 ("rel", scope, "mention", ("A", "m", Q("ex")), (("A", "x", Q("ex")), ("A", "y", Q("ex")), ("A", "b1", Q("ex")))),
                 ("rel", scope, "specialization", None, (("A", "x", Q("ex")), ("A", "y", Q("ex")))),
             ]
+        # a default namespace nested under a prefixed one, and a name whose local part - relative to the nested
+        # default - contains a colon (it can only be named through the outer prefix)
+        ops += [("def", "D", "AB"), ("el", "D", "entity", ("A", "b/run:42", Q("ex"))),
+                ("el", "B1", "entity", ("A", "b/run:42", Q("ex")))]
         ops += [("addrec", "D", "B1", 0), ("addrec", "B1", "D", 0), ("addrec", "B1", "D", 1), ("upd", "D", "B1")]
         ops += [("at", ("A", "k", Q("ex")), "s_a")]
         # look-ups in the middle of the history, also of names that (still) denote nothing there
